@@ -253,3 +253,39 @@ def sibling_lies(n):
                         struct.pack('>I', total) + bytes(pbody) + tail
                     yield ('sibling-lies n=%d parent=%s child=%s elem=%s '
                            'lie=%s' % (n, parent, child, elem, lie)), out
+
+
+HOSTILE_TEXT = ['{}', '{0}', '{x}', 'x-{tenant}-ttl', '{0.__class__}', '{!r}',
+                '{:>999999999}', '%s', '%(x)s', '%d%d', '%', '{', '}', '{{}}',
+                '$x', '${x}', '\\', "'", '"', 'a\x00b', '\n', 'é{}',
+                '%%', '{[0]}', '#{x}']
+
+
+def hostile_names():
+    """Peer-controlled TEXT that means something to Python's formatting
+    machinery (str.format templates, %-templates, string.Template), as field
+    names and string values around a failing element: whatever text a peer
+    puts there must never be interpreted - an error message built from it
+    must not raise something of its own.  Yields (label, table body)."""
+    tags = bytes(range(256))
+    for name in HOSTILE_TEXT:
+        key = name.encode('utf-8')
+        kb = bytes([len(key)]) + key
+        sval = b'S' + struct.pack('>I', len(key)) + key
+        for tag in tags:
+            t = bytes([tag])
+            # the failing (or odd) value sits under the hostile name ...
+            yield 'hostile name %r tag %02x' % (name, tag), \
+                kb + t + b'\x01\x02\x03\x04\x05\x06\x07\x08\x09'
+            if tag in b'?ZbtV\x00\x80\xff':
+                # ... bare, nested one level down, after a hostile string
+                # value, and inside an array under the hostile name
+                yield 'hostile name %r tag %02x bare' % (name, tag), kb + t
+                inner = kb + t + b'\x01'
+                yield 'hostile name %r tag %02x nested' % (name, tag), \
+                    b'\x01nF' + struct.pack('>I', len(inner)) + inner
+                yield 'hostile value %r then tag %02x' % (name, tag), \
+                    b'\x01a' + sval + b'\x01z' + t + b'\x01'
+                arr = sval + t + b'\x01'
+                yield 'hostile name %r array with tag %02x' % (name, tag), \
+                    kb + b'A' + struct.pack('>I', len(arr)) + arr
